@@ -62,7 +62,7 @@ theorem filter_exact (p : Nat → Bool) (a : Arr) (m : Mem) (hinv : a.Inv) :
 /-- **the result can grow** (A3): a sub-array is exactly full (`capacity = size`); appending to it
 succeeds whenever the allocator does not refuse, and yields the slice followed by the new element -/
 theorem subarray_can_grow (a : Arr) (b e x : Nat) (m m' : Mem) (hinv : a.Inv) (r : Arr)
-    (hr : (a.subarray b e m).2.1 = some r) (hlive : 0 < m'.live) (halloc : m'.alloc.1 = true)
+    (hr : (a.subarray b e m).2.1 = some r) (halloc : m'.alloc.1 = true)
     (hmax : ¬ r.AtLimit) :
     (r.add x m').1 = .ok ∧ (r.add x m').2.1.abs = (a.abs.drop b).take (e - b + 1) ++ [x] ∧
     r.capacity < (r.add x m').2.1.capacity := by
@@ -75,9 +75,9 @@ theorem subarray_can_grow (a : Arr) (b e x : Nat) (m m' : Mem) (hinv : a.Inv) (r
     have hrange' : b ≤ e ∧ e < a.abs.length := by simpa using hrange
     unfold Spec.Seq.subarray at h2
     simp only [hrange', and_self, if_true, Option.some.injEq] at h2
-    obtain ⟨ok, habs⟩ := C01.add_succeeds r' x m' h3 hlive (fun _ => halloc) hmax
+    obtain ⟨ok, habs⟩ := C01.add_succeeds r' x m' h3 (fun _ => halloc) hmax
     refine ⟨ok, by rw [habs, h2], ?_⟩
-    rcases (Arr.add_spec r' x m' h3 hlive).1 with ⟨_, _, g⟩ | ⟨hb, _⟩
+    rcases (Arr.add_spec r' x m' h3).1 with ⟨_, _, g⟩ | ⟨hb, _⟩
     · rcases g.2.2.2.1 with g4 | ⟨_, g4, g5, _⟩
       · have := g.1; have := g.2.1; omega
       · omega
@@ -86,20 +86,20 @@ theorem subarray_can_grow (a : Arr) (b e x : Nat) (m m' : Mem) (hinv : a.Inv) (r
 /-- every history on a derived array refines the ideal list started at the derived content — the
 derived array is a fully usable container of its own -/
 theorem derived_history (cfg : Spec.Seq.Cfg) (r : Arr) (ops : List Spec.Seq.Op) (m : Mem) (hinv : r.Inv)
-    (hlive : 0 < m.live)
+   
     (hsort : ∀ xs, (cfg.sortFn xs).length = xs.length) :
     (r.run cfg ops m).1 = (Spec.Seq.run cfg r.abs ops ((r.run cfg ops m).1.map Spec.Seq.Out.blocked)).1 ∧
     (r.run cfg ops m).2.1.abs = (Spec.Seq.run cfg r.abs ops ((r.run cfg ops m).1.map Spec.Seq.Out.blocked)).2 := by
-  have := C01.history_refines cfg ops r m hinv hlive hsort
+  have := C01.history_refines cfg ops r m hinv hsort
   exact ⟨this.1, this.2.1⟩
 
 /-- the same for the copies and the filter result: they keep the source's capacity and growth
 function, so an append succeeds whenever the allocator does not refuse -/
-theorem derived_can_grow (r : Arr) (x : Nat) (m : Mem) (hinv : r.Inv) (hlive : 0 < m.live)
+theorem derived_can_grow (r : Arr) (x : Nat) (m : Mem) (hinv : r.Inv)
     (halloc : r.size = r.capacity → m.alloc.1 = true) (hlim : ¬ r.AtLimit) :
     (r.add x m).1 = .ok ∧ (r.add x m).2.1.abs = r.abs ++ [x] ∧ (r.add x m).2.1.Inv ∧ (r.add x m).2.1.grow = r.grow := by
-  obtain ⟨ok, habs⟩ := C01.add_succeeds r x m hinv hlive halloc hlim
-  rcases (Arr.add_spec r x m hinv hlive).1 with ⟨_, _, g⟩ | ⟨hb, _⟩
+  obtain ⟨ok, habs⟩ := C01.add_succeeds r x m hinv halloc hlim
+  rcases (Arr.add_spec r x m hinv).1 with ⟨_, _, g⟩ | ⟨hb, _⟩
   · exact ⟨ok, habs, g.inv hinv, g.2.2.2.2⟩
   · rcases hb.1 with ⟨e1, _⟩ | ⟨e1, _⟩ <;> rw [e1] at ok <;> simp at ok
 
